@@ -129,10 +129,33 @@ func c06Class(set []simRouteKey, nameLen, maxHops int) string {
 
 func c06Case(r *verifkit.R, phase string, ci int, rng *verifkit.Rand, profile string, n int) {
 	logs := &c06Logs{}
-	s := newSimNet(5, func(i int, cfg *FloodConfig) { cfg.Logger = slog.New(logs) })
+	s := newSimNet(7, func(i int, cfg *FloodConfig) { cfg.Logger = slog.New(logs) })
 	defer s.Close()
 	s.Connect(0, 1)
 	s.Connect(1, 2)
+	// Fault dimension: agents 5 and 6 can be neighbours of agents 0 / 1 / 2 whose connection is dead
+	// but not reaped yet: still listed by GetPeerIDs, every SendToPeer to them fails. The
+	// order in which peers are listed is a PRNG permutation, so a dead neighbour can stand
+	// before, between or after the healthy ones. Healthy neighbours are judged as always.
+	s.PeerPerm = make([]int, 7)
+	for i := range s.PeerPerm {
+		s.PeerPerm[i] = i
+	}
+	verifkit.Shuffle(rng, s.PeerPerm)
+	dead := ""
+	if rng.Chance(3, 5) {
+		s.FailLink = map[[2]int]bool{}
+		for _, dn := range []int{5, 6}[:rng.Range(1, 2)] {
+			for _, host := range []int{0, 1, 2} {
+				if host == 0 || rng.Chance(1, 3) {
+					s.Connect(host, dn) // tables are empty: nothing is replayed
+					s.FailLink[[2]int{host, dn}] = true
+					dead += fmt.Sprintf(" %d-x->%d", host, dn)
+				}
+			}
+		}
+		r.Add("cases_with_dead_neighbours", 1)
+	}
 	sets := map[int][]simRouteKey{0: c06Set(rng, profile, n, 1)}
 	if rng.Bool() {
 		sets[1] = c06Set(rng, "mixed", rng.Range(1, 5), 2)
@@ -191,7 +214,7 @@ func c06Case(r *verifkit.R, phase string, ci int, rng *verifkit.Rand, profile st
 	}
 	nameLen := len("node-0")
 	class := c06Class(sets[0], nameLen, 2)
-	desc := fmt.Sprintf("profile=%s n=%d wire-routes=%d route-bytes=%d sets: agent0=%d agent1=%d agent2=%d shared-by=%v class=%s", profile, n, len(sets[0])+1, c06WireBytes(sets[0]), len(sets[0]), len(sets[1]), len(sets[2]), sharedBy, class)
+	desc := fmt.Sprintf("profile=%s n=%d wire-routes=%d route-bytes=%d sets: agent0=%d agent1=%d agent2=%d shared-by=%v dead-links=[%s] peer-order=%v class=%s", profile, n, len(sets[0])+1, c06WireBytes(sets[0]), len(sets[0]), len(sets[1]), len(sets[2]), sharedBy, dead, s.PeerPerm, class)
 	vio := 0
 	bad := func(key, detail string) {
 		vio++
@@ -378,6 +401,7 @@ func TestVerif_C06(t *testing.T) {
 	r.Require("sets_compared", 1000)
 	r.Require("cases_fits", 100)
 	r.Require("cases_with_shared_keys", 60)
+	r.Require("cases_with_dead_neighbours", 60)
 	r.Require("cases_count-wrap", 20)
 	r.Require("cases_oversize", 10)
 }
